@@ -2,9 +2,13 @@
 import itertools
 import random
 
-from ..common import require
+import os
+
+from ..common import require, BUILD
 from ..obligations import Ob
-from ..symasm import assemble
+from ..symasm import assemble, write_aux_file
+
+AUX = os.path.join(BUILD, "aux", "c08")
 
 P = "pdpverif.props.c08:"
 
@@ -24,7 +28,7 @@ META = {
                 "resource exhaustion by astronomically large counts (e.g. '.align 10**11' asks for a 100 GB fill): excluded by the count bound",
                 "termination is only ever refuted (watchdog), never proved"],
     "structure": "about 250 token-level oddities (wrong operand kinds, malformed labels/assignments, unbalanced brackets, malformed numbers and "
-                 "literals, dangling operators, odd white space and characters) each alone, in context and at end of file; quick: depth <= 1 exhaustive per head representative + seeded depth 2 (about 1300 structures); thorough: about 9000",
+                 "literals, dangling operators, odd white space and characters) each alone, in context and at end of file; quick: depth <= 1 exhaustive per head representative + seeded depth 2 (about 1300 structures); thorough: about 9000; 10 nets of files that include themselves or each other (with and without .once); .extern of names nobody defines; 9 failing programs x 8 -W selections x 2 report formats through main_cli (a failing run prints a diagnostic)",
     "stubs": [],
 }
 
@@ -132,6 +136,76 @@ def h_total(params, vals, ctx):
     if o.status == "failed":
         return len(o.errors) >= 1
     return False
+
+
+# files that include each other: name -> text ({V1} only in the main file)
+INCLUDE_NETS = {
+    "self": ({"s.mac": '.include "s.mac"\n.word 1\n'}, "s.mac", "failed"),
+    "self-once": ({"so.mac": '.once\n.include "so.mac"\n.word 1\n'}, "so.mac", "ok"),
+    "mutual": ({"ma.mac": '.word 1\n.include "mb.mac"\n', "mb.mac": '.include "ma.mac"\n.word 2\n'}, "ma.mac", "failed"),
+    "mutual-once": ({"oa.mac": '.once\n.word 1\n.include "ob.mac"\n', "ob.mac": '.once\n.include "oa.mac"\n.word 2\n'}, "oa.mac", "ok"),
+    "mutual-half-once": ({"ha.mac": '.once\n.word 1\n.include "hb.mac"\n', "hb.mac": '.include "ha.mac"\n.word 2\n'}, "ha.mac", "ok"),
+    "ring-3": ({"r1.mac": '.include "r2.mac"\n', "r2.mac": 'nop\n.include "r3.mac"\n', "r3.mac": '.include "r1.mac"\n'}, "r1.mac", "failed"),
+    "diamond": ({"d0.mac": '.include "d1.mac"\n.include "d2.mac"\n', "d1.mac": '.include "d3.mac"\n', "d2.mac": '.include "d3.mac"\n', "d3.mac": ".word 3\n"}, "d0.mac", "ok"),
+    "chain-20": ({**{f"c{i}.mac": f'.include "c{i + 1}.mac"\n.byte {i}.\n' for i in range(20)}, "c20.mac": ".byte 20.\n"}, "c0.mac", "ok"),
+    "self-in-repeat": ({"rp.mac": '.repeat 2 { .include "rp.mac" }\n'}, "rp.mac", "failed"),
+    "self-lazy-path": ({"lz.mac": '.include "lz.ma"<CH>\nCH = 155\n'}, "lz.mac", "failed"),
+}
+
+
+def h_include_net(params, vals, ctx):
+    """Source files that include themselves or each other: an answer (the '.once'-guarded ones assemble), never a crash or a hang."""
+    require(-65536 < vals["V1"] < 65536)
+    files, main, expect = INCLUDE_NETS[params["net"]]
+    for n, t in files.items():
+        write_aux_file("c08", n, t)
+    o = assemble([(os.path.join(AUX, "main_" + main), '.include "%s"\n.even\n.word {V1}\n' % main)], vals, route=ctx.route)
+    ctx.observe_outcome(o)
+    ctx.reach(True)
+    if o.status == "ok":
+        return expect == "ok" and len(o.errors) == 0
+    if o.status == "failed":
+        return expect == "failed" and len(o.errors) >= 1
+    return False
+
+
+SAYS_WHY = [".byte #{V1}\n", ".word 18 + {V1}\n", "mov #{V1}\n", "frob {V1}\n", "clrf r6\n.word nosuch + {V1}\n", ".ascii\n.error {V1}\n",
+            "mov @r1, r0\n.word UNDEF + {V1}\n", "trap #{V1}, 1\n", ".word {V1}\n.include \"no-such.mac\"\n"]
+SAYS_WHY_W = [None, ["all"], ["no-all"], ["no-excess-hash"], ["no-implicit-accumulator", "no-legacy-deferred"], ["all", "no-all"], ["no-default"], ["error"]]
+
+
+def h_cli_says_why(params, vals, ctx):
+    """A failing CLI run says why, whatever the -W selection and report format: exit status 1 comes with at least one printed diagnostic."""
+    from .. import cli_harness as CH
+    from ..common import concretize, notrace
+    from ..symasm import render, inject
+    import pdpy11.parser as PP
+    require(0 <= vals["W"] < len(SAYS_WHY_W) and 0 <= vals["F"] < 2)
+    require(-300 <= vals["V1"] <= 300)
+    w, f = concretize(vals["W"]), concretize(vals["F"])
+    order = ["V1"]
+    text = render(SAYS_WHY[params["k"]], order, vals, ctx.route)
+    real_parse = PP.parse
+
+    def parse_fn(path, t):
+        with notrace():
+            ast = real_parse(path, t)
+            if ctx.route == "inject":
+                inject(ast, order, vals)
+        return ast
+
+    src = "/w/src/a.mac"
+    r = CH.run_cli([src], {src: text}, outfile="/w/out/o.bin", report_format=CH.FORMATS[f], warnings=SAYS_WHY_W[w], parse_fn=parse_fn)
+    said = [c for c in r.stdout if isinstance(c, str) and c.strip()]
+    said_err = len(r.stderr_chunks) > 0
+    ctx.observe(r.exit, r.crash, len(r.writes), len(r.stderr_chunks), len(said))
+    ctx.reach(r.exit == 1)
+    if r.crash is not None:
+        raise AssertionError("internal error escaped main_cli: " + str(r.crash))
+    if r.exit == 1:
+        return (len(said) > 0 or said_err) and r.writes == []
+    # not a failure: then it is a success with its file
+    return r.exit is None and len(r.writes) == 1
 
 
 def _ob(tag, text, **kw):
@@ -244,6 +318,17 @@ def obligations(tier, seed):
             add("tok-ctx", CONTEXT_NOSELF + t + TAIL)
         if tier == "thorough" or rnd.random() < 0.4:
             add("tok-eof", "nop\n" + t)
+    for k in range(len(SAYS_WHY)):
+        obs.append(Ob(oid=f"cli-says-why/{k}", harness=P + "h_cli_says_why", params={"k": k}, vars={"V1": "int", "W": "int", "F": "int"}, timeout=600, per_path=60,
+                      note=SAYS_WHY[k].replace("\n", " / ") + " x 8 -W selections x 2 report formats"))
+    for net in INCLUDE_NETS:
+        obs.append(Ob(oid=f"include-net/{net}", harness=P + "h_include_net", params={"net": net, "hang_probe": True}, vars={"V1": "int"}, timeout=200, per_path=60,
+                      note=" || ".join(f"{n}: " + t.replace("\n", " / ") for n, t in INCLUDE_NETS[net][0].items())[:300]))
+    for t in (".extern ghost\n.word ghost + {V1}\n", ".extern ghost\nmov ghost, r0\n.word {V1}\n", ".extern all\n.word nosuch + {V1}\n",
+              ".extern ghost, ghost\n.word {V1}\n", ".extern\n.word {V1}\n", ".extern 5\n.word {V1}\n", ".extern ghost\nghost = ghost + {V1}\n",
+              ".extern ghost\nX9 = ghost\n.word {V1}\n", ".extern ghost\n.blkb ghost\n.word {V1}\n", ".extern ghost\n.link ghost + {V1}\nnop\n",
+              "br ghost\n.extern ghost\n.word {V1}\n"):
+        add("extern", t)
     add("huge", ".word 1 << 20000.\n")
     add("huge", "X9 = 1 _ \"ab\"\n.byte X9\n")
     for i, c in enumerate(CYCLES):
